@@ -100,6 +100,25 @@ impl Compound for Y {
     }
 }
 
+/// Compound over the NON-reloadable S with the same id (C14: its reads must land in the compound's own set)
+pub struct YS(pub u8);
+impl Mk for YS {
+    fn mk(b: u8) -> Self {
+        YS(b)
+    }
+    fn val(&self) -> u8 {
+        self.0
+    }
+}
+impl Compound for YS {
+    fn load(cache: AnyCache, id: &SharedString) -> Result<Self, BoxedError> {
+        match cache.load_owned::<S>(id) {
+            Ok(s) => Ok(YS(s.0)),
+            Err(e) => Err(Box::new(e)),
+        }
+    }
+}
+
 // ---------------------------------------------------------------------------------------------
 // in-memory source over ids {"a","b"} and extension "x" with a per-id outcome that can be flipped
 // ---------------------------------------------------------------------------------------------
